@@ -231,12 +231,35 @@ func trio() []*m.Address {
 	return trioIDs
 }
 
+// underivable returns an identity from whose address NO switch label can be derived (the last byte of a routable
+// address is 0x00 or 0x80, about one address in 128): a link to it has to fall back to a random label.
+var underivableID *m.Address
+
+func underivable() *m.Address {
+	for n := 64; underivableID == nil; n += 64 {
+		for _, id := range mesh.Identities(n)[n-64:] {
+			if _, ok := m.DeriveSwitchLabelFromIP(id.IP); !ok && underivableID == nil {
+				underivableID = id
+			}
+		}
+	}
+	return underivableID
+}
+
+var runSeq int
+
 func newRun(c *vf.Ctx, sh shape, s *sched) *run {
 	world.InstallLogCapture()
 	w := world.NewWorld()
 	ids := mesh.Identities(len(sh.routers))
 	if len(sh.routers) == 3 {
 		ids = trio()
+	}
+	if len(sh.routers) == 2 {
+		runSeq++
+		if runSeq%3 == 0 {
+			ids = []*m.Address{ids[0], underivable()}
+		}
 	}
 	r := &run{c: c, s: s, sh: sh, node: map[string]*world.Node{}, name: map[*world.Node]string{}, conns: map[int]*connState{}}
 	for i, n := range sh.routers {
@@ -555,6 +578,11 @@ func snapshot(nodes []*world.Node, names map[*world.Node]string, live map[peerin
 		for _, l := range order {
 			if live[l] == nd {
 				lv = append(lv, liveRec{ids[l], nameOf(l.Peer()), uint64(l.SwitchLabel())})
+				if os.Getenv("VERIF_C16_DEBUG") != "" {
+					if _, ok := m.DeriveSwitchLabelFromIP(l.Peer()); !ok {
+						fmt.Fprintf(os.Stderr, "debug: live link at %s to underivable peer %s has label %d\n", names[nd], l.Peer(), l.SwitchLabel())
+					}
+				}
 			}
 		}
 		byPeer, byLabel := nd.Peer.VerifRegistry()
